@@ -1037,3 +1037,97 @@ func keepsBeyondCall(addr ssa.Value) bool {
 	}
 	return true
 }
+
+// noSwallowedPanic: a function with results does not defer a recover() that lets the function continue to its caller:
+// after a recovered panic a function with unnamed results returns their zero values — a nil error is "verified", a nil
+// acknowledgement is "no acknowledgement". A deferred closure that re-panics on every path after recover() is fine; so is
+// one that stores to a named result of the function before returning.
+func noSwallowedPanic(c *Check, rule string, fns []*ssa.Function) int {
+	n := 0
+	for _, fn := range fns {
+		if len(fn.Blocks) == 0 || fn.Signature.Results().Len() == 0 || isGeneratedFn(c.P, fn) {
+			continue
+		}
+		n++
+		for _, b := range fn.Blocks {
+			for _, ins := range b.Instrs {
+				d, ok := ins.(*ssa.Defer)
+				if !ok || c.P.IsClone(d) {
+					continue
+				}
+				var cl *ssa.Function
+				switch v := d.Call.Value.(type) {
+				case *ssa.MakeClosure:
+					cl, _ = v.Fn.(*ssa.Function)
+				case *ssa.Function:
+					cl = v
+				}
+				if cl == nil || len(cl.Blocks) == 0 {
+					continue
+				}
+				var rec *ssa.Call
+				for _, cb := range cl.Blocks {
+					for _, ci := range cb.Instrs {
+						if call, ok := ci.(*ssa.Call); ok {
+							if bi, ok := call.Call.Value.(*ssa.Builtin); ok && bi.Name() == "recover" {
+								rec = call
+							}
+						}
+					}
+				}
+				if rec == nil {
+					continue
+				}
+				// can the closure return normally after recover()? (blocks reachable from the recover call that end in Return)
+				returns := false
+				storesResult := false
+				seen := map[*ssa.BasicBlock]bool{}
+				var walk func(x *ssa.BasicBlock)
+				walk = func(x *ssa.BasicBlock) {
+					if seen[x] {
+						return
+					}
+					seen[x] = true
+					for _, xi := range x.Instrs {
+						if st, ok := xi.(*ssa.Store); ok {
+							if fv, ok := st.Addr.(*ssa.FreeVar); ok && namedResult(fn, cl, fv) {
+								storesResult = true
+							}
+						}
+					}
+					if _, ok := x.Instrs[len(x.Instrs)-1].(*ssa.Return); ok {
+						returns = true
+					}
+					for _, s := range x.Succs {
+						walk(s)
+					}
+				}
+				walk(rec.Block())
+				c.Req(!returns || storesResult, rule, funcName(fn)+"/deferred recover", d.Pos(), "re-panics or sets a named result",
+					"a deferred recover() lets "+funcName(fn)+" return normally after a panic without setting a named result: the caller receives zero values (a nil error reads as success, a nil acknowledgement as none)")
+			}
+		}
+	}
+	c.Req(n > 0, rule, "functions with results examined for a deferred recover()", token.NoPos, fmt.Sprint(n, " function(s)"), "no function in scope (anchor drifted)")
+	return n
+}
+
+// namedResult: the free variable of closure cl is bound to the cell of a named result of fn.
+func namedResult(fn, cl *ssa.Function, fv *ssa.FreeVar) bool {
+	idx := -1
+	for i, v := range cl.FreeVars {
+		if v == fv {
+			idx = i
+		}
+	}
+	if idx < 0 {
+		return false
+	}
+	res := fn.Signature.Results()
+	for i := 0; i < res.Len(); i++ {
+		if res.At(i).Name() != "" && res.At(i).Name() == fv.Name() {
+			return true
+		}
+	}
+	return false
+}
